@@ -161,12 +161,15 @@ def run(ctx):
         it.setStandardInput(StringInput("x\n"))
         return it
 
-    def attempt(it, src, what, rp, expect_undefined=None):
+    def attempt(it, src, what, rp, expect_undefined=None, env=None):
         """run src in the secure interpreter under the audit hook; any non-allowed event is a violation"""
         with Recording() as rec:
             try:
                 with core.time_limit(5):
-                    it.interpret(src, "c09")
+                    if env is None:
+                        it.interpret(src, "c09")
+                    else:
+                        it.interpret(src, "c09", env)
                 outcome = "value"
             except CklRuntimeError as e:
                 outcome = "rt"
@@ -274,6 +277,29 @@ def run(ctx):
                     elif getattr(v, "secure", True) is False:
                         ctx.violation("oracle", f"after `{fp}` the effectful built-in `{v.name}` is reachable in a secure interpreter",
                                       {"op": "reach", "src": fp, "name": v.name, "legacy": legacy})
+            # (4b) the same through a CALLER-SUPPLIED environment (interpret(src, name, environment)): the program defines the flag there and
+            # leaves closures behind that bind and call file / process built-ins; they are called after that environment has been detached
+            # again, from the session and from a second caller-supplied environment
+            from ckl.functions import get_none_environment
+            leave = ("def bn = bind_native; def keep_ = keep; "
+                     "append(keep_, fn(p) do bn('file_exists'); file_exists(p) end); append(keep_, fn(p) do bn('execute', 'ex'); ex('echo hi') end); "
+                     "append(keep_, fn(p) do bn('file_input'); file_input(p) end); append(keep_, fn(p) do bn('list_dir', 'ld'); ld(p) end); "
+                     "append(keep_, fn(p) do bind_native('file_exists'); file_exists(p) end); append(keep_, fn(p) do require OS; OS->file_exists(p) end)")
+            for fp in ["NULL", "def checkerlang_secure_mode = FALSE", "def [checkerlang_secure_mode] = [FALSE]", "def checkerlang_secure_mode = NULL",
+                       "def f_(checkerlang_secure_mode) do LEAVE end; f_(FALSE)", "for checkerlang_secure_mode in [FALSE] do LEAVE end"]:
+                it5 = fresh(legacy)
+                it5.interpret("def keep = []", "c09")
+                e1 = get_none_environment()
+                prog = fp.replace("LEAVE", leave) if "LEAVE" in fp else fp + "; " + leave
+                ctx.nontrivial.add(hash((legacy, "detached", fp)))
+                attempt(it5, prog, "caller-supplied environment", {"op": "flag", "legacy": legacy}, env=e1)
+                for k in range(6):
+                    attempt(it5, f"keep[{k}]('{canary}')", f"closure left behind by `{fp}` in a caller-supplied environment, called from the session",
+                            {"op": "flag-probe", "flag_program": prog, "legacy": legacy})
+                    attempt(it5, f"keep[{k}]('{canary}')", f"closure left behind by `{fp}` in a caller-supplied environment, called from a second one",
+                            {"op": "flag-probe", "flag_program": prog, "legacy": legacy}, env=get_none_environment())
+                    attempt(it5, f"keep[{k}]('{canary}')", f"closure left behind by `{fp}` in a caller-supplied environment, called from the same one again",
+                            {"op": "flag-probe", "flag_program": prog, "legacy": legacy}, env=e1)
             # (5) reachability in the interpreter used for the module sweep
             for v in walk_values(it3):
                 if not isinstance(v, tuple) and getattr(v, "secure", True) is False:
